@@ -33,12 +33,12 @@ CARGO_TIMEOUT_S = 1500
 
 
 def py_cases(tier):
-    return 1500 if tier == "quick" else 30000
+    return 1500 if tier == "quick" else 90000
 
 
 def rs_cases(tier):
     """cases per routine (each case = one layout, 4 calls)"""
-    return 4000 if tier == "quick" else 100000
+    return 4000 if tier == "quick" else 300000
 
 
 # ---------------------------------------------------------------------------------------------------
